@@ -78,11 +78,11 @@ def deviated_statement_cases(tier):
 
 
 # ---------------------------------------------------------------- opaque regions
-BODY = [';', "'", '"', '$', '(', ')', '-', '/', '*', '\n', ' ', 'a', 'BEGIN', 'END', '`', ',', '--', '/*', 'CASE', ';;']
+BODY = [';', "'", '"', '$', '(', ')', '-', '/', '*', '\n', ' ', 'a', 'BEGIN', 'END', '`', ',', '--', '/*', 'CASE', ';;', '\\']
 REGIONS = [
     # name, opener, closer, forbidden fragments in the body, forbidden substrings of the joined body
-    ('single-quoted', "'", "'", ("'", '\\'), ("'",)),
-    ('double-quoted', '"', '"', ('"', '\\'), ('"',)),
+    ('single-quoted', "'", "'", ("'",), ("'",)),
+    ('double-quoted', '"', '"', ('"',), ('"',)),
     ('back-quoted', '`', '`', ('`',), ('`',)),
     ('dollar', '$$', '$$', ('$',), ('$$',)),
     ('dollar-tag', '$t$', '$t$', ('$',), ('$t$',)),
@@ -112,6 +112,8 @@ def region_cases(tier):
                 bt = ''.join(body)
                 if any(s in bt for s in forb_sub):
                     continue
+                if rname in ('single-quoted', 'double-quoted') and bt.endswith('\\'):
+                    continue          # a backslash directly before the closing quote escapes it (that is the terminator rule)
                 yield rname, op + bt + cl
 
 
